@@ -503,7 +503,7 @@ OBLIGATIONS = [
                 "duplicate of the first / port of wrong type), merge or replace, conflict callback (absent/True/False/raises), "
                 "injected sqlite3.OperationalError at statement 0..10",
        functions=FN, stubs=["ModelSQL", "FakeDatetime", "tomllib.load patched"]),
-    Ob("import_fault3", import_fault3, quick=400, thorough=1200, real_replay=import_fault3_real,
+    Ob("import_fault3", import_fault3, quick=800, thorough=1800, real_replay=import_fault3_real,
        symbolic="3 import entries each of 8 kinds, merge or replace, conflict callback kind", functions=FN,
        stubs=["ModelSQL", "FakeDatetime", "tomllib.load patched"]),
     Ob("roundtrip", roundtrip, quick=300, thorough=900,
